@@ -10,10 +10,17 @@ evaluated on the OBSERVED output:
     match expressions leads there, any depth, with the prescribed previous level) — evaluated through the
     incremental table `SvcSpec.Tbl`, proved equal to the specification (`table_is_spec`). It uses no model state.
 The model is then compared as well (by `svc_delivery_is_chain_semantics` it can only differ from the observed output
-when the specification clause has already failed, or when the history is outside the hypotheses, which is flagged).
+when the specification clause has already failed, or when the history is outside the hypotheses).
+A case in which some topic has SEVERAL ways in (a diamond, a topic collected directly and published to) is no longer
+rejected: there the delivery depends on the goroutines' interleaving, the exact clauses above and the comparison with
+the synchronous model do not apply, and the observed logs are judged with the schedule-quantified specification
+(Kap/Driver/C09Async.lean: per-chain counts, per-chain FIFO merge, previous levels in the topic's own order) — those
+clauses are evaluated on EVERY case, single-entry or not. On single-entry cases the ASYNCHRONOUS model
+(Kap/Model/C09Async.lean, run with a canonical schedule) is compared with the observed output as well.
 -/
 import Kap.Model.C09Svc
 import Kap.Spec.C09Svc
+import Kap.Driver.C09Async
 open Kap Kap.C09 Kap.C09.Svc
 
 namespace Kap.C09.SvcDrv
@@ -77,6 +84,12 @@ structure DSt where
   directLog : List (String × SEv) := []
   /-- (topic, recorder, number of direct collects on topic before it registered) -/
   recSince : List (String × String × Nat) := []
+  /-- some topic has had several ways in: the delivery is schedule dependent -/
+  multi : Bool := false
+  /-- bookkeeping of the schedule-quantified clauses -/
+  book : AsyncDrv.Book := {}
+  /-- the asynchronous model, settled after every operation (compared on single-entry cases) -/
+  amodel : Async.ASt := {}
   br : List String := []
   nt : Bool := false
 
@@ -91,6 +104,18 @@ def judge (_id : String) (lines : Array String) : Verdict := Id.run do
       let some n := unesc n | return .badop l
       let some T := unesc T | return .badop l
       let m := renderL ((st.model.received n T).map renderSEv)
+      -- the schedule-quantified clauses (valid whatever the interleaving was): every case
+      let some obsEvs := (match obs with | [tok] => AsyncDrv.parseObs tok | _ => none) | return .badop l
+      match AsyncDrv.judgeFinal st.book harnessOrder n T obsEvs with
+      | .error (clause, detail) => return .specfail clause detail
+      | .ok o =>
+        for b in o.br do st := addBr st b
+        if o.nt then st := { st with nt := true }
+      st := { st with book := { st.book with finals := (n, T, obsEvs) :: st.book.finals } }
+      if st.multi then continue
+      -- from here on: single-entry cases only (deterministic delivery)
+      let am := renderL ((st.amodel.received n T).map renderSEv)
+      if obs != [am] then return .mismatch s!"recorder {esc n} topic {esc T}: asynchronous model {am} observed {obs}"
       -- spec clauses on the observed output
       let registered := st.recSince.find? (fun r => r.1 == T && r.2.1 == n)
       match registered with
@@ -153,8 +178,16 @@ def judge (_id : String) (lines : Array String) : Verdict := Id.run do
         | .dereg _ _ => st := addBr st "dereg-spec"
         let before := st.model.log.length
         let arrBefore := st.tbl.arr.length
+        match op with
+        | .collect T ev =>
+          if st.book.cols.any (fun c => c.ev.time == ev.time) then return .badop s!"two collects with the same time: {l}"
+          st := { st with book := st.book.collect T ev st.model.specs }
+          if (st.model.specs.flatMap (·.targets)).contains T then st := addBr st "direct+published"
+        | .recorder T n => st := { st with book := st.book.recorder T n }
+        | _ => pure ()
         let (m', ok) := Svc.step st.model op
-        st := { st with model := m', tbl := st.tbl.step op }
+        st := { st with model := m', tbl := st.tbl.step op, amodel := Async.stepSettled st.amodel op }
+        if !st.amodel.quiet then return .badop s!"the asynchronous model did not settle: {l}"
         -- how deep the chain semantics carried this event (coverage of the spec's own branches)
         match op with
         | .collect T _ =>
@@ -164,7 +197,8 @@ def judge (_id : String) (lines : Array String) : Verdict := Id.run do
         | _ => pure ()
         if !forwardOnly harnessOrder m'.specs then return .badop s!"publish edge that does not go forward in the harness order (outside the modelled class): {l}"
         if m'.overflow then return .badop "cyclic handler configuration (outside the modelled class)"
-        if !singleEntry m' st.direct then return .badop s!"topic with more than one way in (outside the modelled class): {l}"
+        if !Async.fwd harnessOrder m'.specs then return .badop s!"publish edge that does not go forward in the harness order (outside the modelled class): {l}"
+        if !singleEntry m' st.direct && !st.multi then st := { addBr st "multi-entry" with multi := true }
         match op with
         | .collect _ _ =>
           let n := m'.log.length - before
